@@ -424,6 +424,14 @@ func genVP9PayCase(t *rapid.T) *VP9PayCase {
 			c.Frames[i].BodyLen %= 600
 		}
 	}
+	if rapid.IntRange(0, 299).Draw(t, "manypackets") == 173 { // a mid-range value: rapid favours the ends of a range
+		// a frame that needs more packets than there are sequence numbers: the smallest MTUs and 64 KiB or more
+		c.MTU = uint16(minMTU)
+		c.Frames = c.Frames[:1]
+		c.Frames[0].BodyLen = rapid.SampledFrom([]int{65530, 65536, 65540, 70000}).Draw(t, "manypacketsbody") * (minMTU - 3)
+
+		return c
+	}
 	if rapid.IntRange(0, 59).Draw(t, "jumbo") == 0 {
 		// a frame of 64 KiB or more (ordinary for HD key frames)
 		if c.MTU < 1000 {
@@ -512,7 +520,7 @@ func genVP9DescCase1(t *rapid.T) *VP9DescCase {
 	return c
 }
 
-const ruleC12 = "payloader: 1-4 frames whose uncompressed header prefix is written bit by bit by an independent writer (profiles 0-3 with reserved bit, show_existing_frame, key/non-key, all colour spaces incl. RGB, subsampling bits, size-1 in [0,65534]^2, garbage in reserved and trailing bits) followed by 0-5000 random bytes (one case in 60: a frame of 65520-200000 bytes), flexible and non-flexible mode (one case in six flips the public FlexibleMode field between frames), MTU >= 4 (>= 12 when a non-flexible key frame occurs) biased to the thresholds, initial picture id biased to 0,127,128,32766,32767,65535 or (one case in six) left to the library's default, then learned from the first packet; every packet is decoded by VP9Packet (a fresh one per packet, or one for the whole stream) and by an independent RFC 9628 descriptor parser: concatenation = frame, B/E placement, IsPartitionHead=B, F=mode, 15-bit id constant per frame and +1 per frame mod 2^15, <= MTU, non-flexible P=non-key and V/Y/width/height on the first packet of a key frame. descriptor: reference-built descriptors (I 7/15 bit, L, F with I, 1-3 P_DIFF, SS with N_S 0-7, Y, G, N_G 0-255 with R 0-3; SID 0-4 since pion supports 5 spatial layers by design) + payload, all truncations rejected; half of the cases decode 1-2 other descriptors into the same VP9Packet first; one case in eight runs in zero-allocation mode (only acceptance and the returned bytes are checked). header: vp9.Header.Unmarshal equals the writer's fields and rejects every short byte prefix. Non-trivial = >=2 packets, non-flexible key frame with profile>=1 or RGB, SS with picture groups, >=2 P_DIFF, truncation, key-frame header; distinct = FNV-64 of the JSON case"
+const ruleC12 = "payloader: 1-4 frames whose uncompressed header prefix is written bit by bit by an independent writer (profiles 0-3 with reserved bit, show_existing_frame, key/non-key, all colour spaces incl. RGB, subsampling bits, size-1 in [0,65534]^2, garbage in reserved and trailing bits) followed by 0-5000 random bytes (one case in 60: a frame of 65520-200000 bytes; one in 300: a single frame that needs 65530-70000 packets at the smallest MTU), flexible and non-flexible mode (one case in six flips the public FlexibleMode field between frames), MTU >= 4 (>= 12 when a non-flexible key frame occurs) biased to the thresholds, initial picture id biased to 0,127,128,32766,32767,65535 or (one case in six) left to the library's default, then learned from the first packet; every packet is decoded by VP9Packet (a fresh one per packet, or one for the whole stream) and by an independent RFC 9628 descriptor parser: concatenation = frame, B/E placement, IsPartitionHead=B, F=mode, 15-bit id constant per frame and +1 per frame mod 2^15, <= MTU, non-flexible P=non-key and V/Y/width/height on the first packet of a key frame. descriptor: reference-built descriptors (I 7/15 bit, L, F with I, 1-3 P_DIFF, SS with N_S 0-7, Y, G, N_G 0-255 with R 0-3; SID 0-4 since pion supports 5 spatial layers by design) + payload, all truncations rejected; half of the cases decode 1-2 other descriptors into the same VP9Packet first; one case in eight runs in zero-allocation mode (only acceptance and the returned bytes are checked). header: vp9.Header.Unmarshal equals the writer's fields and rejects every short byte prefix. Non-trivial = >=2 packets, non-flexible key frame with profile>=1 or RGB, SS with picture groups, >=2 P_DIFF, truncation, key-frame header; distinct = FNV-64 of the JSON case"
 
 func TestC12(t *testing.T) {
 	r := begin(t, "C12", "exploration", ruleC12)
